@@ -51,11 +51,12 @@ def run(ctx):
         ins.append(b"message A { repeated " + b"(" * depth)
     ctx.rule = ("byte strings: %d hand-written lexer edge fragments, random bytes (len 0..24), token soups over the fragments, byte-level "
                 "mutants and truncations of the repository's testdata, deep nesting up to depth %d; each is lexed by the real lexer "
-                "alone (compared with the model in coqc) and parsed by parser.Parse + ResultFromAST (direct oracle); distinct = distinct "
+                "alone (compared with the model in coqc; in the quick tier one in five of the inputs longer than 64 bytes) and parsed by parser.Parse + ResultFromAST (direct oracle); distinct = distinct "
                 "byte string; non-trivial = non-empty" % (len(FRAGS), ctx.budget(3000, 10000)))
     lex_outs = ctx.impl("lexer", [{"mode": "lex", "data": d.hex()} for d in ins])
     par_outs = ctx.impl("lexer", [{"mode": "parse", "data": d.hex()} for d in ins])
     terms, meta = [], []
+    nlong = 0
     for d, lo, po in zip(ins, lex_outs, par_outs):
         ctx.count(d, len(d) > 0, "accepted" if (not po.get("err") and "panic" not in po) else "rejected")
         rep = {"data_hex": d.hex(), "data_text": d[:200].decode("latin1")}
@@ -75,8 +76,12 @@ def run(ctx):
         if "panic" in lo or "crash" in lo:
             continue
         if len(d) <= 4000:
-            terms.append(coq_lex_case(d, lo))
-            meta.append((d, lo))
+            # quick tier: every short input and one in five of the longer ones (mostly token-level mutants of whole files, which
+            # exercise the parser rather than the lexer) are also evaluated on the model in coqc; the direct oracle sees them all
+            nlong += len(d) > 64
+            if len(d) <= 64 or ctx.tier != "quick" or nlong % 5 == 0:
+                terms.append(coq_lex_case(d, lo))
+                meta.append((d, lo))
     ctx.sample({"data": ins[len(FRAGS) + 3].hex()}); ctx.sample({"data_text": ins[len(FRAGS) + 2000].decode("latin1")})
     mism, err = coq_eval_mismatches("cases_C12", HEADER, terms, "lex_chk", shard_size=300)
     if err:
